@@ -1,8 +1,174 @@
+(* C05 — every status request gets one answer, for the right group, within cache age.
+   Model: Cache.v (goswarm Simple.Query at the granularity of its atomic operations + getConsumerStatus +
+   cacheKey/splitCacheKey of the repaired caching.go).  A run is [run ... reqs sched]: one thread per request,
+   [sched] says which thread takes its next atomic step at which wall-clock time (ANY list: every interleaving of any
+   number of concurrent requesters, the sequential ones included); storage is ANY function of time [lookup]; the
+   evaluation of a storage reply [evalf] and the problems-only view [filt] are ANY functions; names are ANY byte
+   strings.  [cfg_ok L fixed0]: lifetime L >= 0, and the cache is consulted only when L > 0 (the repaired code:
+   fixed0 = true, see cfg_ok_repaired).
+   Reply event: EvReply i t rc rg c g v s cr r start = request i (for cluster rc, group rg) is answered at time t with
+   names (c, g) and status v (None = NOTFOUND), computed from the storage fetch made at s, stored at cr, found valid
+   at r; the request's first step was at start. *)
 From Coq Require Import ZArith List Bool Lia.
 From Burrow Require Import Cache CacheProofs.
 Import ListNotations.
 Open Scope Z_scope.
 
+(* ---- keys ---- *)
 Theorem split_mk_key : forall c g, split_key (mk_key c g) = Some (c, g).
 Proof. exact CacheProofs.split_mk_key. Qed.
 Print Assumptions split_mk_key.
+
+Theorem key_injective : forall c1 g1 c2 g2, mk_key c1 g1 = mk_key c2 g2 -> c1 = c2 /\ g1 = g2.
+Proof. exact CacheProofs.key_injective. Qed.
+Print Assumptions key_injective.
+
+(* the key of the unrepaired code was right only for cluster names without a space ... *)
+Theorem split_mk_key_old : forall c g, no_space c -> split_key_old (mk_key_old c g) = Some (c, g).
+Proof. exact CacheProofs.split_mk_key_old. Qed.
+Print Assumptions split_mk_key_old.
+
+Theorem key_injective_old : forall c1 g1 c2 g2, no_space c1 -> no_space c2 ->
+  mk_key_old c1 g1 = mk_key_old c2 g2 -> c1 = c2 /\ g1 = g2.
+Proof. exact CacheProofs.key_injective_old. Qed.
+Print Assumptions key_injective_old.
+
+(* ... and wrong otherwise (repaired in /repo; kept as documentation): "a b"/"c" and "a"/"b c" *)
+Theorem key_collision_refuted :
+  exists c1 g1 c2 g2, (c1, g1) <> (c2, g2) /\ mk_key_old c1 g1 = mk_key_old c2 g2
+                      /\ split_key_old (mk_key_old c1 g1) = Some (c2, g2).
+Proof. exact CacheProofs.key_collision_refuted. Qed.
+Print Assumptions key_collision_refuted.
+
+Theorem names_shared_old_refuted :
+  exists reqs sched,
+    hd_error (trace (run Z Z (fun _ d => d) wit_lookup1 mk_key_old split_key_old 10 true reqs sched))
+    = Some (EvReply 0 4 [97; 32; 98] [99] [97] [98; 32; 99] (Some 7) 2 3 3 1)
+    /\ wit_lookup1 2 [97; 32; 98] [99] = None.
+Proof. exact CacheProofs.names_shared_old_refuted. Qed.
+Print Assumptions names_shared_old_refuted.
+
+Theorem zero_lifetime_old_refuted :
+  exists reqs sched,
+    hd_error (trace (run Z Z (fun _ d => d) wit_lookup2 mk_key split_key 0 false reqs sched))
+    = Some (EvReply 1 1001 [97] [103] [97] [103] (Some 7) 2 3 1000 1000)
+    /\ wit_lookup2 1000 [97] [103] = None.
+Proof. exact CacheProofs.zero_lifetime_old_refuted. Qed.
+Print Assumptions zero_lifetime_old_refuted.
+
+(* ---- the property, for the repaired code ---- *)
+
+(* exactly one reply per request -- never two in any schedule, one as soon as the request's goroutine has been given
+   five steps (no step can block), none for anything that is not a request -- naming the request's cluster and group *)
+Theorem one_reply_named :
+  forall (data value : Type) (evalf : Z -> data -> value) (lookup : Z -> name -> name -> option data)
+         (L : Z) (fixed0 : bool) (reqs : list (name * name)) (sched : list (nat * Z)) (i : nat),
+    cfg_ok L fixed0 ->
+    let tr := trace (run data value evalf lookup mk_key split_key L fixed0 reqs sched) in
+    (length (replies_of data value i tr) <= 1)%nat
+    /\ ((i < length reqs)%nat -> (5 <= occ i sched)%nat -> length (replies_of data value i tr) = 1%nat)
+    /\ ((length reqs <= i)%nat -> replies_of data value i tr = [])
+    /\ (forall t rc rg c g v s cr r start,
+          In (EvReply i t rc rg c g v s cr r start) tr ->
+          nth_error reqs i = Some (rc, rg) /\ c = rc /\ g = rg).
+Proof. exact CacheProofs.one_reply_named. Qed.
+Print Assumptions one_reply_named.
+
+(* a reply delivered at t is the evaluation of the storage fetch of the request's own (cluster, group) made at s --
+   that fetch is in the trace --; its result was stored at cr >= s, and at some moment r within the request
+   (start <= r <= t) it was still valid: r <= cr + L, i.e. r - s <= L + evaluation time (cr - s) *)
+Theorem staleness_bound :
+  forall (data value : Type) (evalf : Z -> data -> value) (lookup : Z -> name -> name -> option data)
+         (L : Z) (fixed0 : bool) (reqs : list (name * name)) (sched : list (nat * Z))
+         i t rc rg c g v s cr r start,
+    cfg_ok L fixed0 ->
+    let tr := trace (run data value evalf lookup mk_key split_key L fixed0 reqs sched) in
+    In (EvReply i t rc rg c g v s cr r start) tr ->
+    v = option_map (evalf s) (lookup s rc rg)
+    /\ (exists tid, In (EvLookup tid s rc rg (lookup s rc rg)) tr)
+    /\ s <= cr /\ cr <= t /\ start <= r /\ r <= t /\ r - s <= L + (cr - s).
+Proof. exact CacheProofs.staleness_bound. Qed.
+Print Assumptions staleness_bound.
+
+(* NOTFOUND exactly when storage held no live data for the group at that moment s *)
+Theorem notfound_iff :
+  forall (data value : Type) (evalf : Z -> data -> value) (lookup : Z -> name -> name -> option data)
+         (L : Z) (fixed0 : bool) (reqs : list (name * name)) (sched : list (nat * Z))
+         i t rc rg c g v s cr r start,
+    cfg_ok L fixed0 ->
+    In (EvReply i t rc rg c g v s cr r start) (trace (run data value evalf lookup mk_key split_key L fixed0 reqs sched)) ->
+    (v = None <-> lookup s rc rg = None).
+Proof. exact CacheProofs.notfound_iff. Qed.
+Print Assumptions notfound_iff.
+
+(* requests for different (cluster, group) pairs have different keys, and each is answered from fetches of its own pair *)
+Theorem not_shared :
+  forall (data value : Type) (evalf : Z -> data -> value) (lookup : Z -> name -> name -> option data)
+         (L : Z) (fixed0 : bool) (reqs : list (name * name)) (sched : list (nat * Z))
+         i t rc rg c g v s cr r start j t' rc' rg' c' g' v' s' cr' r' start',
+    cfg_ok L fixed0 ->
+    let tr := trace (run data value evalf lookup mk_key split_key L fixed0 reqs sched) in
+    In (EvReply i t rc rg c g v s cr r start) tr ->
+    In (EvReply j t' rc' rg' c' g' v' s' cr' r' start') tr ->
+    (rc, rg) <> (rc', rg') ->
+    mk_key rc rg <> mk_key rc' rg'
+    /\ (c, g) = (rc, rg) /\ v = option_map (evalf s) (lookup s rc rg)
+    /\ (c', g') = (rc', rg') /\ v' = option_map (evalf s') (lookup s' rc' rg').
+Proof. exact CacheProofs.not_shared. Qed.
+Print Assumptions not_shared.
+
+(* which requests asked for the filtered view changes no event of the run (times, fetches, raw results): every request
+   is delivered the same whether the others were filtered or not *)
+Theorem filtered_does_not_disturb :
+  forall (data value : Type) (evalf : Z -> data -> value) (filt : value -> value)
+         (lookup : Z -> name -> name -> option data) (L : Z) (fixed0 : bool)
+         (reqs reqs' : list (name * name * bool)) (sched : list (nat * Z)),
+    map fst reqs = map fst reqs' ->
+    trace (run data value evalf lookup mk_key split_key L fixed0 (map fst reqs) sched)
+    = trace (run data value evalf lookup mk_key split_key L fixed0 (map fst reqs') sched)
+    /\ (forall i sa, nth_error (map snd reqs) i = Some sa -> nth_error (map snd reqs') i = Some sa ->
+          map (delivered data value filt sa)
+              (replies_of data value i (trace (run data value evalf lookup mk_key split_key L fixed0 (map fst reqs) sched)))
+          = map (delivered data value filt sa)
+              (replies_of data value i (trace (run data value evalf lookup mk_key split_key L fixed0 (map fst reqs') sched)))).
+Proof. exact CacheProofs.filtered_does_not_disturb. Qed.
+Print Assumptions filtered_does_not_disturb.
+
+(* ---- non-vacuity ---- *)
+
+(* the configuration of the repaired code satisfies cfg_ok for every lifetime, 0 included *)
+Example cfg_ok_zero : cfg_ok 0 true.
+Proof. apply cfg_ok_repaired. lia. Qed.
+Example cfg_ok_ten : cfg_ok 10 true.
+Proof. apply cfg_ok_repaired. lia. Qed.
+
+(* a run with two requesters of one group interleaved with a third for a colliding pair ("a b"/"c" vs "a"/"b c"):
+   storage holds data for "a"/"b c" until time 100.  Thread 1 and 2 both miss and both fetch (no per-key lock);
+   thread 0 (the colliding name) is answered NOTFOUND under its own names; request 3 comes at 2000, after the
+   lifetime (1000), re-fetches and finds the group gone; the cached NOTFOUND then serves request 4 and starts a
+   background refresh (thread 5). *)
+Definition ex_lookup (t : Z) (c g : name) : option Z :=
+  if bytes_eqb c [97] && bytes_eqb g [98; 32; 99] && (t <? 100) then Some (t * 10) else None.
+Definition ex_reqs : list (name * name) :=
+  [([97; 32; 98], [99]); ([97], [98; 32; 99]); ([97], [98; 32; 99]); ([97], [98; 32; 99]); ([97], [98; 32; 99])].
+Definition ex_sched : list (nat * Z) :=
+  [(1%nat, 1); (2%nat, 2); (0%nat, 3); (1%nat, 4); (2%nat, 5); (0%nat, 6); (1%nat, 7); (2%nat, 8); (0%nat, 9); (0%nat, 10); (0%nat, 11);
+   (2%nat, 12); (1%nat, 13);
+   (3%nat, 2000); (3%nat, 2001); (3%nat, 2002); (3%nat, 2003); (3%nat, 2004);
+   (4%nat, 2100); (4%nat, 2101); (5%nat, 2102); (5%nat, 2103); (5%nat, 2104); (5%nat, 2105)].
+Example ex_trace :
+  filter (fun ev => match ev with EvReply _ _ _ _ _ _ _ _ _ _ _ => true | _ => false end)
+         (trace (run Z Z (fun _ d => d) ex_lookup mk_key split_key 1000 true ex_reqs ex_sched))
+  = [EvReply 4 2101 [97] [98; 32; 99] [97] [98; 32; 99] None 2001 2002 2100 2100;
+     EvReply 3 2004 [97] [98; 32; 99] [97] [98; 32; 99] None 2001 2002 2002 2000;
+     EvReply 1 13 [97] [98; 32; 99] [97] [98; 32; 99] (Some 40) 4 7 7 1;
+     EvReply 2 12 [97] [98; 32; 99] [97] [98; 32; 99] (Some 50) 5 8 8 2;
+     EvReply 0 11 [97; 32; 98] [99] [97; 32; 98] [99] None 6 9 9 3].
+Proof. vm_compute. reflexivity. Qed.
+Example ex_refresh_fetch :
+  In (EvLookup 5 2102 [97] [98; 32; 99] None)
+     (trace (run Z Z (fun _ d => d) ex_lookup mk_key split_key 1000 true ex_reqs ex_sched)).
+Proof. vm_compute. tauto. Qed.
+(* steps taken: an error path needs five steps (thread 0, 3), a good path four; request 4 answered a cached NOTFOUND in two *)
+Example ex_steps : map (fun i => occ i ex_sched) [0; 1; 2; 3; 4; 5]%nat = [5; 4; 4; 5; 2; 4]%nat.
+Proof. vm_compute. reflexivity. Qed.
